@@ -504,6 +504,28 @@ int main(int argc, char** argv)
                                 fail = buf;
                             }
                         }
+                        if (round == 0 && !ex && fail.empty()) {
+                            // C06: once the boundary values carry the data, a sweep never increases the energy norm of the error
+                            std::vector<LD> bb = fe, xs = denseSolve(I.A, bb), e1(I.N), e2(I.N);
+                            auto energy = [&](const std::vector<LD>& e) {
+                                LD s = 0;
+                                for (int a2 = 0; a2 < I.N; a2++)
+                                    if (!I.dirichlet[a2])
+                                        for (int b2 = 0; b2 < I.N; b2++)
+                                            if (!I.dirichlet[b2])
+                                                s += e[a2] * I.A[a2][b2] * e[b2];
+                                return s;
+                            };
+                            for (int q = 0; q < I.N; q++)
+                                e1[q] = (LD)x[gidx(g, q)] - xs[q];
+                            B->level->smoothing(x, f, tmp);
+                            for (int q = 0; q < I.N; q++)
+                                e2[q] = (LD)x[gidx(g, q)] - xs[q];
+                            LD en1 = energy(e1), en2 = energy(e2);
+                            if (!(en2 <= en1 * (1 + 1e-10L) + 1e-20L))
+                                fail = std::string("Smoother ") + (meth ? "Take" : "Give") + ": a sweep increased the energy norm of the error from " + std::to_string((double)en1) + " to " + std::to_string((double)en2);
+                            B->level->smoothing(x, f, tmp); // (result of this extra sweep is not used)
+                        }
                         if (round == 0) {
                             res[meth].resize(I.N);
                             for (int q = 0; q < I.N; q++)
